@@ -1,24 +1,42 @@
 """Discharge verification conditions: z3 (python API, fresh context per VC, one process per VC in
 a pool), then /usr/bin/cvc5 on whatever z3 leaves unknown.  On the thorough tier both solvers
-see every VC and a sat/unsat disagreement is a checker error."""
+see every VC and a sat/unsat disagreement is a checker error.
+
+Budgets are z3 *resource limits* (rlimit: a deterministic count of solver steps), not wall-clock
+timeouts: the verdict on a VC is the same on an idle and on a busy machine, only the time differs
+(the wall-clock limit is a backstop of half an hour).  Measured on the unchanged tree, the most
+expensive VC that is discharged needs 8.4 million units (C06 add_node, ~7 s); every other one needs
+less than 0.5 million.  Stages for a VC z3 leaves open after RLIMIT_1:
+  1b  the same VC without its quantified hypotheses, RLIMIT_1 (unsat there => unsat)
+  2   cvc5 (wall-clock 60 s; it can only add verdicts)
+  3   the full VC again with RLIMIT_2 (ten times the first budget)
+Only what is still open after that is `unknown`."""
 import multiprocessing
 import os
 import subprocess
 import tempfile
 import time
 
-Z3_TIMEOUT_QUICK = 20
-Z3_TIMEOUT_THOROUGH = 120
+RLIMIT_1 = {'quick': 25 * 10 ** 6, 'thorough': 80 * 10 ** 6}
+RLIMIT_2 = {'quick': 250 * 10 ** 6, 'thorough': 800 * 10 ** 6}
+WALL_BACKSTOP_S = 1800
+WORKER_MEMORY_MB = 2500
+CVC5_WALL_S = {'quick': 60, 'thorough': 180}
 CVC5 = '/usr/bin/cvc5'
 
 
 def _z3_worker(job):
-  uid, smt2, timeout_s, want_model = job
+  uid, smt2, rlimit, want_model = job
   import z3
   t0 = time.time()
+  try:
+    z3.set_param('memory_max_size', WORKER_MEMORY_MB)      # z3 answers unknown (memout) instead of growing
+  except Exception:
+    pass
   ctx = z3.Context()
   s = z3.Solver(ctx=ctx)
-  s.set('timeout', int(timeout_s * 1000))
+  s.set('rlimit', int(rlimit))
+  s.set('timeout', WALL_BACKSTOP_S * 1000)
   try:
     s.from_string(smt2)
     r = s.check()
@@ -37,6 +55,17 @@ def _z3_worker(job):
     info['model'] = d
   if r == z3.unknown:
     info['reason'] = s.reason_unknown()
+  if os.environ.get('PYVC_STATS'):
+    try:
+      st = s.statistics()
+      rl = [st.get_key_value(k) for k in st.keys() if k == 'rlimit count']
+      with open(os.environ['PYVC_STATS'], 'a') as f:
+        f.write('%s %.3f %s uid=%s\n' % (res, time.time() - t0, rl[0] if rl else -1, uid))
+      if res == 'unknown' and os.environ.get('PYVC_DUMP'):
+        with open(os.environ['PYVC_STATS'] + '.%s.smt2' % uid, 'w') as f:
+          f.write(smt2)
+    except Exception:
+      pass
   return (uid, res, info, time.time() - t0)
 
 
@@ -65,30 +94,90 @@ def _cvc5_worker(job):
   return (uid, out, {}, time.time() - t0)
 
 
+class _Pool(object):
+  """map jobs over worker processes; a worker that dies (e.g. killed by the kernel for memory)
+  yields an 'error' result for the job it held instead of hanging the whole check"""
+  def __init__(self, procs):
+    self.procs = procs
+
+  def imap_unordered(self, fn, jobs, chunksize=1):
+    import concurrent.futures as cf
+    from concurrent.futures.process import BrokenProcessPool
+    jobs = list(jobs)
+    pending = list(jobs)
+    attempts = 0
+    while pending:
+      attempts += 1
+      done_uids = set()
+      ex = cf.ProcessPoolExecutor(max_workers=self.procs, mp_context=multiprocessing.get_context('fork'))
+      try:
+        futs = {ex.submit(fn, j): j for j in pending}
+        try:
+          for f in cf.as_completed(futs):
+            j = futs[f]
+            try:
+              r = f.result()
+            except BrokenProcessPool:
+              raise
+            except Exception as e:
+              r = (j[0], 'error', {'error': 'worker raised %r' % (e,)}, 0.0)
+            done_uids.add(j[0])
+            yield r
+        except BrokenProcessPool:
+          pass
+      finally:
+        ex.shutdown(wait=False, cancel_futures=True)
+      pending = [j for j in pending if j[0] not in done_uids]
+      if pending and attempts >= 2:
+        # a worker died twice: give the remaining jobs an error verdict (checker error, never a violation)
+        for j in pending:
+          yield (j[0], 'error', {'error': 'solver worker process died (out of memory?)'}, 0.0)
+        return
+      if pending:
+        self.procs = max(2, self.procs // 2)       # retry what is left with half the parallelism
+
+
 def discharge(obligations, tier='quick', procs=None):
   """-> dict uid -> {'z3': (res, info, secs), 'cvc5': (res, info, secs) | None, 'verdict': ...}"""
   procs = procs or max(2, min(16, (os.cpu_count() or 4)))
-  timeout = Z3_TIMEOUT_THOROUGH if tier == 'thorough' else Z3_TIMEOUT_QUICK
+  tier = 'thorough' if tier == 'thorough' else 'quick'
+  r1, r2 = RLIMIT_1[tier], RLIMIT_2[tier]
   jobs = []
   texts = {}
+  by_uid = {}
   for i, ob in enumerate(obligations):
     ob.uid = i
+    by_uid[i] = ob
     texts[i] = ob.smt2()
-    jobs.append((i, texts[i], timeout, True))
+    jobs.append((i, texts[i], r1, True))
   results = {}
   if not jobs:
     return results
-  ctx = multiprocessing.get_context('fork')
-  with ctx.Pool(procs) as pool:
+  pool = _Pool(procs)
+  if True:
     for (uid, res, info, secs) in pool.imap_unordered(_z3_worker, jobs, chunksize=1):
       results[uid] = {'z3': (res, info, secs), 'cvc5': None}
-    cj = []
-    for uid, r in results.items():
-      if tier == 'thorough' or r['z3'][0] in ('unknown', 'error'):
-        cj.append((uid, texts[uid], timeout))
+    open_ = [uid for uid, r in results.items() if r['z3'][0] in ('unknown', 'error')]
+    # 1b: ground hypotheses only
+    if open_:
+      rj = [(uid, by_uid[uid].smt2_relaxed(), r1, False) for uid in open_]
+      for (uid, res, info, secs) in pool.imap_unordered(_z3_worker, rj, chunksize=1):
+        if res == 'unsat':
+          results[uid]['z3'] = ('unsat', {'ground_hypotheses_only': True}, results[uid]['z3'][2] + secs)
+      open_ = [uid for uid in open_ if results[uid]['z3'][0] in ('unknown', 'error')]
+    # 2: cvc5
+    cj = [(uid, texts[uid], CVC5_WALL_S[tier]) for uid in (list(results) if tier == 'thorough' else open_)]
     if cj and os.path.exists(CVC5):
       for (uid, res, info, secs) in pool.imap_unordered(_cvc5_worker, cj, chunksize=1):
         results[uid]['cvc5'] = (res, info, secs)
+    # 3: the full VC with the large budget
+    again = [uid for uid in open_ if not (results[uid]['cvc5'] and results[uid]['cvc5'][0] in ('sat', 'unsat'))]
+    if again:
+      for (uid, res, info, secs) in pool.imap_unordered(_z3_worker, [(uid, texts[uid], r2, True) for uid in again], chunksize=1):
+        if res in ('sat', 'unsat'):
+          results[uid]['z3'] = (res, dict(info, second_budget=True), results[uid]['z3'][2] + secs)
+        else:
+          results[uid]['z3'] = (results[uid]['z3'][0], dict(results[uid]['z3'][1], second_budget_rlimit=r2), results[uid]['z3'][2] + secs)
   for uid, r in results.items():
     z = r['z3'][0]
     c = r['cvc5'][0] if r['cvc5'] else None
@@ -100,12 +189,14 @@ def discharge(obligations, tier='quick', procs=None):
       r['verdict'] = 'refuted'
     elif c == 'sat':
       r['verdict'] = 'refuted'
+    elif z == 'error':
+      r['verdict'] = 'error'          # the solver process failed (parse error, died): a checker error, not an open VC
     else:
       r['verdict'] = 'unknown'
   return results
 
 
-def relaxed_check(ob, timeout_s=20):
+def relaxed_check(ob, rlimit=25 * 10 ** 6):
   """Second opinion on a VC both solvers left open: drop the *quantified* hypotheses.
   unsat  => the obligation is proved (fewer hypotheses sufficed);
   sat    => the path is feasible and the clause false as far as the ground facts go -- a candidate
@@ -114,7 +205,8 @@ def relaxed_check(ob, timeout_s=20):
   import z3
   from .core import has_quantifier
   s = z3.Solver()
-  s.set('timeout', int(timeout_s * 1000))
+  s.set('rlimit', int(rlimit))
+  s.set('timeout', WALL_BACKSTOP_S * 1000)
   kept = 0
   for a in ob.pc:
     if not has_quantifier(a):
